@@ -17,7 +17,7 @@ RULE = ("sess: generated POP3 dialogues (0-8 messages, hostile message sources i
         "line ends, split and pipelined chunks, any order of USER/PASS/APOP, CAPA, QUIT or EOF or unterminated last line, idle timeout, "
         "read error, write failure, reconnects on the same server) interleaved with deliveries/removals/purges by others and mailbox-cap "
         "evictions, alternating mem and file store; plus an enumeration of all pairs of transaction commands on a 2-message mailbox and a "
-        "regression corpus; bytes: raw client byte streams (valid dialogues cut at every byte; garbage with LF/CR/NUL/8-bit/the ToUpper runes over-represented; lines of 5-75 KB) run by Coq's run_stream itself. distinct = distinct input line; non-trivial = the session logs in and issues at least one further command line.")
+        "regression corpus; bytes: raw client byte streams (valid dialogues cut at every byte; garbage with LF/CR/NUL/8-bit/the ToUpper runes over-represented; lines of 5-75 KB) run by Coq's run_stream itself; net: scripted connections (a pause longer than the idle timeout at every byte offset of valid dialogues and at random offsets of dialogues and garbage; endings EOF / silence / read error) run by Coq's run_net. distinct = distinct input line; non-trivial = the session logs in and issues at least one further command line.")
 TRUSTED = ["command words are compared after Go's strings.ToUpper: modelled for ASCII plus U+0131/U+017F (the only runes whose upper case is ASCII)",
            "the store abstraction of Model/Pop3.v is proved to be C07's StoreSpec read through abs (pop3_over_storespec, storespec_*; every cap and size limit), and StoreSpec is what C07 proves both store models refine (pop3_over_store_models); what stays modelled rather than proved is the one difference between the back-ends that StoreSpec does not speak about: Source() of a message object whose message has been removed fails on the file store and still succeeds on the mem store (sampled by the correspondence run)"]
 ASSUMPTIONS = ["the harness's scripted net.Conn hands the server one line per Read and never blocks writes; deadlines are not exercised",
@@ -30,7 +30,7 @@ def _events(ins):
 
 
 def nontrivial(kind, ins, outs):
-    if kind == "bytes":
+    if kind in ("bytes", "net"):
         return len([o for o in outs if not o.startswith("S")]) >= 2
     if kind != "sess":
         return True
@@ -52,6 +52,20 @@ def shrink_candidates(inp):
                 cand = h[:2 * i] + h[2 * (i + step):]
                 yield " ".join(parts[:3] + [cand or "-"])
             step //= 2
+        return
+    if parts[0] == "net" and len(parts) == 5 and parts[3] != "-":
+        cs = parts[3].split(",")
+        for i in range(len(cs)):           # drop a chunk
+            yield " ".join(parts[:3] + [",".join(cs[:i] + cs[i + 1:]) or "-", parts[4]])
+        for i in range(len(cs) - 1):       # merge two chunks (remove a pause)
+            a, b = cs[i], cs[i + 1]
+            m = ("" if a == "-" else a) + ("" if b == "-" else b)
+            yield " ".join(parts[:3] + [",".join(cs[:i] + [m or "-"] + cs[i + 2:]), parts[4]])
+        for i, c in enumerate(cs):         # halve a chunk
+            if c != "-" and len(c) > 4:
+                h = (len(c) // 4) * 2
+                for cut in (c[:h], c[h:]):
+                    yield " ".join(parts[:3] + [",".join(cs[:i] + [cut] + cs[i + 1:]), parts[4]])
         return
     if parts[0] != "sess" or len(parts) != 4:
         return
